@@ -310,8 +310,30 @@ def roundtrip(seed, quick=True, sources=None):
     ident = sum(1 for i in X2 if X2[i][1] == X1[i][1])
     differs = [{"source": cases[i][0], "options": cases[i][2]} for i in X2 if X2[i][1] != X1[i][1]]
     w_same = sum(1 for i in W2 if W2[i][1] == W1[i][1])
+    # observation (C only): INDENTED generation, two trips, with the same keep_ws both ways: with keep_ws off the second XML is
+    # the first (C03_roundtrip_and_idempotence_indent_partial); with keep_ws on the indentation is kept as content and x grows
+    # (C03_ex_indent_keep_ws_grows)
+    ind = {"keep0_identical": 0, "keep0_differs": 0, "keep1_identical": 0, "keep1_differs": 0}
+    ch = _c01_harness()
+    sample = [(n, x) for n, x in srcs if len(x) < 4000][:: max(1, len(srcs) // 40)]
+
+    def c_chain(xml, keep):
+        a, _ = common.run_lines(ch, [convcases.x2w_line(xml, version=3, strtbl=0, keep=keep, dump=1)])
+        p = convcases.parse_answer(a[0])
+        if p is None or p["st"] != 0 or p.get("out", "-") == "-":
+            return None
+        a, _ = common.run_lines(ch, [convcases.w2x_line(bytes.fromhex(p["out"]), lang=0, gen=1, indent=2, keep=keep, dump=1)])
+        p = convcases.parse_answer(a[0])
+        return bytes.fromhex(p["out"]) if p is not None and p["st"] == 0 and p.get("out", "-") != "-" else None
+    for n, x in sample:
+        for keep in (0, 1):
+            x1 = c_chain(x, keep)
+            x2 = c_chain(x1, keep) if x1 is not None else None
+            if x1 is not None and x2 is not None:
+                ind["keep%d_%s" % (keep, "identical" if x2 == x1 else "differs")] += 1
     k = list(X1)[:: max(1, len(X1) // 6)][:6]
     return {"evaluations": evaluations, "disagreements": dis, "stages": dict(stages), "cases": len(cases), "sources": len(srcs),
+            "indent_second_iteration_observation": ind,
             "second_iteration_xml_identical": ident, "second_iteration_xml_differs": len(differs), "second_iteration_differs_samples": differs[:5],
             "second_wbxml_equals_first": w_same, "second_wbxml_differs_from_first": len(W2) - w_same,
             "crashes": crashes,
